@@ -53,6 +53,22 @@ def registration_methods(ctx, cls):
         ws = [w for w in func_writes(m.node, recv_name(m)) if not _is_flush(w)]
         if any(w.attr != DICT for w in ws):
             out.append(m)
+    # a private helper that is only ever called from other registration methods of the class is part of them,
+    # not an entry point of its own (the flush is the caller's duty)
+    def external_or_foreign_callers(m):
+        for f in ctx.repo.all_funcs():
+            if f is m:
+                continue
+            for c in ast.walk(f.node):
+                if isinstance(c, ast.Call) and isinstance(c.func, ast.Attribute) and c.func.attr == m.name:
+                    if not (f.cls is cls and f in out and is_self_attr(c.func, selfname=recv_name(f))):
+                        return True
+        return False
+
+    def called_by_regs(m):
+        return any(f is not m and any(isinstance(c, ast.Call) and is_self_attr(c.func, m.name, selfname=recv_name(f)) for c in ast.walk(f.node)) for f in out)
+
+    out = [m for m in out if not (m.name.startswith("_") and not m.name.startswith("__") and called_by_regs(m) and not external_or_foreign_callers(m))]
     return out
 
 
